@@ -585,13 +585,8 @@ def analyzeOrder (t : TableMeta) : Plan → List OrdKey
   | .limit _ _ p => analyzeOrder t p
   | .empty _ => []
 
-/-- range.rs `is_primary_key_range` (condition of the `filter-scan` rules) since fixes a029577 and
-fe505a1: the condition is a key range on a PRIMARY KEY column that is the table's FIRST column, of
-type INT, with INT constants as bounds. (Before: `is_primary` only.) -/
-def rangeGuard (t : TableMeta) (e : Expr) : Bool :=
-  match analyzeRange e with
-  | some (k, r) => t.primary.contains k && k == 0 && t.intCols.contains k && bndI32 r.lo && bndI32 r.hi
-  | none => false
+/- range.rs `is_primary_key_range` (condition of the `filter-scan` rules): `rangeGuard` is GENERATED from
+   the source on every run, see Gen/RangeGuard.lean (which imports this file). -/
 
 /-- `is_orderby(keys, plan)`: the plan's order key list starts with `keys`. -/
 def isOrderBy (t : TableMeta) (ks : List OrdKey) (p : Plan) : Bool :=
